@@ -23,6 +23,7 @@ func TestVerifSeqKeys(t *testing.T) {
 		cr.Reset(kv{"name": "seqkeys-cluster", "round": round})
 		c := newSimCluster(t, cr, 1, []int32{1})
 		config := NewConfig()
+		config.ClientID = c.clientID
 		config.Version = V0_11_0_0
 		config.Producer.Idempotent = true
 		config.Producer.RequiredAcks = WaitForAll
